@@ -11,6 +11,10 @@ use std::collections::HashMap;
 
 type Secs = HashMap<SectionId, Vec<u8>>;
 
+// stream c12.lineconv (Model/ConvertLine.v): see c12_lineconv.rs
+#[path = "c12_lineconv.rs"]
+mod lineconv;
+
 fn corpus_dir() -> String {
     std::env::var("GV_CORPUS")
         .unwrap_or_else(|_| concat!(env!("CARGO_MANIFEST_DIR"), "/../corpus/sections").to_string())
@@ -441,6 +445,7 @@ pub fn run(t: &[&str]) -> String {
 
 fn run_inner(t: &[&str]) -> String {
     match t[0] {
+        "c12.lineconv" => lineconv::run(t),
         // c12.corpus <variant> units|ehframe|debugframe
         "c12.corpus" => {
             let secs = load_variant(t[1]);
